@@ -78,3 +78,27 @@ Definition run_fit (is_pdb : bool) (t : list frow) : val :=
   | Refused => VE "ValueError"
   | Fitted t' => vlist (fun r => VL [VZ (f_serial r); vstr (f_chain r); VZ (f_resseq r); vstr (f_icode r); vnat (f_id r)]) t'
   end.
+
+(* ---- residue-level reader *)
+From RV Require Import Model.Reader1.
+Definition mkatom1 (label : option (str * Z * str)) (auth : option (str * Z * option str * str)) (model : Z) (name : str)
+           (x y z : Z) (occ : option Z) : atom1 :=
+  {| a1_label := label;
+     a1_auth := match auth with Some (c, n, ic, rn) => Some {| i_chain := c; i_number := n; i_icode := ic; i_resname := rn |} | None => None end;
+     a1_model := model; a1_name := name; a1_pos := (x, y, z); a1_occ := occ; a1_entity := None |}.
+Definition vident (o : option ident) : val :=
+  match o with Some i => VL [vstr (i_chain i); VZ (i_number i); vostr (i_icode i); vstr (i_resname i)] | None => VN end.
+Definition vatom1 (a : atom1) : val :=
+  match a1_pos a with (x, y, z) => VL [vstr (a1_name a); VZ x; VZ y; VZ z; voz (a1_occ a)] end.
+Definition vresidue (g : list atom1) : val :=
+  match g with
+  | a :: _ => VL [vident (a1_auth a); VZ (a1_model a); vlist vatom1 g]
+  | [] => VN
+  end.
+Definition run_read (atoms : list atom1) (model : option Z) : val :=
+  match read_structure atoms model with Ok gs => vlist vresidue gs | Raise e => VE (exn_name e) end.
+Definition run_read_pdb (lines : list str) (model : option Z) : val :=
+  match decode_pdb 1 lines with
+  | Raise e => VE (exn_name e)
+  | Ok atoms => run_read atoms model
+  end.
